@@ -155,8 +155,9 @@ type scen struct {
 	midiIn        bool
 	events        []*input.InputEvent
 	two           bool
-	pace          int // the feeder sleeps this many times before every event and before closing the stream (lets LED frames happen in between)
-	faults        int // number of OpenRGB calls the environment may fail (every placement)
+	stall         bool // the whole process is stalled (suspend, CPU starvation) for 6 s of virtual time at an arbitrary moment
+	pace          int  // the feeder sleeps this many times before every event and before closing the stream (lets LED frames happen in between)
+	faults        int  // number of OpenRGB calls the environment may fail (every placement)
 }
 
 func drain(out chan midi.Event, tag string) {
@@ -226,6 +227,12 @@ func (sc scen) run() {
 			vsched.CloseBidi(in)
 		})
 	}
+	if sc.stall {
+		vsched.Go("system-stall", func() {
+			vsched.Daemon()
+			vsched.Sleep(6 * time.Second)
+		})
+	}
 	start("A", 1, 60, sc.events)
 	if sc.two {
 		start("B", 2, 72, other(sc.events))
@@ -282,6 +289,22 @@ func (sc scen) check(solo map[string][]string) func(x *vsched.Execution) []vsche
 			vs = append(vs, vsched.Violation{"device-does-not-terminate", strings.Join(w, " + "), "after the event stream ended these threads are blocked forever: " + strings.Join(x.Blocked, " | ")})
 			return vs
 		}
+		// "ends promptly once its event stream ends": on the virtual clock (every sleep / timer that fired in between
+		// counts, whoever slept) - the code's own waits are 10 ms (LED loop) and 250 ms (connect loop) long
+		for _, tag := range []string{"A", "B"} {
+			var closedAt, retAt time.Duration = -1, -1
+			for _, o := range x.Obs {
+				switch o.Kind {
+				case "stream-closed" + tag:
+					closedAt = o.Clock
+				case "processevents-returned" + tag:
+					retAt = o.Clock
+				}
+			}
+			if !sc.stall && closedAt >= 0 && retAt >= 0 && retAt-closedAt > 5*time.Second { // (a stall of the whole process is the environment's doing)
+				vs = append(vs, vsched.Violation{"termination-not-prompt", "device" + tag, fmt.Sprintf("device %s: %v of (virtual) time passed between the end of its event stream and the return of ProcessEvents", tag, retAt-closedAt)})
+			}
+		}
 		if sc.rgb {
 			last := ""
 			for _, o := range x.Obs {
@@ -331,6 +354,9 @@ func scenarios(tier string) []scen {
 	// the panic action replaces the MIDI-input tracker: any schedule exposes a missing lock through the happens-before
 	// detector, so the non-preemptive schedules suffice in the quick tier (129 sends make higher bounds expensive)
 	s = append(s, scen{name: "no-openrgb, panic while midi input is live", events: []*input.InputEvent{key("KEY_A", 1), key("KEY_ESC", 1)}, midiIn: true, dBound: -2, noEarlyTimers: true, outCap: 512})
+	// the process does not get the CPU for several seconds (system suspend, starvation) at an arbitrary moment
+	s = append(s, scen{name: "openrgb connected, the process stalls for 6 s at some point", events: two[:1], rgb: true, stall: true, pace: 1, dBound: -1},
+		scen{name: "no-openrgb, the process stalls for 6 s at some point", events: two[:1], stall: true, pace: 1, dBound: -1})
 	// environment faults: the LED server refuses / drops up to two calls, or goes away for good, at every possible call
 	s = append(s, scen{name: "openrgb with faults (<=2 failing calls or server gone), press + release", events: []*input.InputEvent{key("KEY_A", 1), key("KEY_A", 0)}, rgb: true, faults: 2, pace: 2, dBound: -2})
 	if tier == "thorough" {
